@@ -133,6 +133,24 @@ int main() {
       chk("q series = closed form", sph::ng::qfun(z), ((1 + 3 / (z * z)) * atanq(z) - 3 / z) / 2, 1e-27Q * z * z * z);
       chk("q' series = closed form", sph::ng::qpfun(z), 3 * (1 + 1 / (z * z)) * (1 - atanq(z) / z) - 1, 1e-28Q * z * z);
     }
+    // signed-argument versions: agree with the oblate ones, series = closed form on both sides, continuous through the sphere
+    for (Q z2 : {Q(0.09), Q(0.039), Q(-0.039), Q(-0.09), Q(-0.5)}) {
+      Q A = sph::ng::Afun2(z2);
+      if (z2 > 0) { Q z = sqrtq(z2); chk("q(z)/z", sph::ng::qz2(z2), sph::ng::qfun(z) / z, 1e-28Q); chk("q'(z)", sph::ng::qp2(z2), sph::ng::qpfun(z), 1e-28Q); }
+      if (fabsq(z2) < Q(0.04)) { chk("q/z series = closed form", sph::ng::qz2(z2), ((1 + 3 / z2) * A - 3 / z2) / 2, 1e-26Q); chk("q' series = closed form", sph::ng::qp2(z2), 3 * (1 + 1 / z2) * (1 - A) - 1, 1e-27Q); }
+    }
+    {
+      sph::ng::Ell Pm(6378137, 3.986004418e14Q, 7.292115e-5Q, -1e-9Q);
+      chk("J2 continuous through f = 0 (prolate side)", Pm.J2, S0.J2, 1e-8Q * fabsq(S0.J2) + 1e-9Q);
+      chk("gamma_e continuous through f = 0 (prolate side)", Pm.gammae, S0.gammae, 1e-7Q * S0.gammae);
+      chk("gamma_p continuous through f = 0 (prolate side)", Pm.gammap, S0.gammap, 1e-7Q * S0.gammap);
+      chk("U0 continuous through f = 0 (prolate side)", Pm.U0, S0.U0, 1e-7Q * S0.U0);
+      // Pizzetti: 2 gamma_e/a + gamma_p/b = 3 GM/(a^2 b) - 2 omega^2, any f
+      for (Q f : {Q(-0.5), Q(-0.2), Q(-0.01), Q(0.1)}) {
+        sph::ng::Ell E(6378137, 3.986004418e14Q, 7.292115e-5Q, f);
+        chk("Pizzetti", 2 * E.gammae / E.a + E.gammap / E.b, 3 * E.GM / (E.a * E.a * E.b) - 2 * E.omega * E.omega, 1e-30Q);
+      }
+    }
     chk("q continuous at the switch", sph::ng::qfun(Q(0.2)), sph::ng::qfun(Q(0.2) + Q(1e-30)), 1e-29Q);
     chk("q' continuous at the switch", sph::ng::qpfun(Q(0.2)), sph::ng::qpfun(Q(0.2) + Q(1e-30)), 1e-29Q);
     chk("gamma_e sphere limit", S0.gammae, S1.gammae, 1e-7Q * S0.gammae);
